@@ -77,6 +77,12 @@ impl SwiftField for Field60F {
                 message: "Field 60F must be at least 10 characters long".to_string(),
             });
         }
+        // the components are cut out by byte position: only ASCII content can be sliced safely
+        if !input.is_ascii() {
+            return Err(ParseError::InvalidFormat {
+                message: "Field 60F must contain only ASCII characters".to_string(),
+            });
+        }
 
         // Parse debit/credit mark (1 character)
         let debit_credit_mark = parse_exact_length(&input[0..1], 1, "Field 60F debit/credit mark")?;
@@ -126,6 +132,12 @@ impl SwiftField for Field60M {
         if input.len() < 10 {
             return Err(ParseError::InvalidFormat {
                 message: "Field 60M must be at least 10 characters long".to_string(),
+            });
+        }
+        // the components are cut out by byte position: only ASCII content can be sliced safely
+        if !input.is_ascii() {
+            return Err(ParseError::InvalidFormat {
+                message: "Field 60M must contain only ASCII characters".to_string(),
             });
         }
 
